@@ -408,10 +408,10 @@ def scenario2(draw, tier):
 def kinds(tier):
     return [
         Kind("crash-enumeration", run, strategy=scenario(tier),
-             examples={"quick": 24, "thorough": 1000},
+             examples={"quick": 24, "thorough": 400},
              shrink_s={"quick": 60, "thorough": 600}),
         Kind("resumed-groups-hints-obsolete-dir", run,
              strategy=scenario2(tier),
-             examples={"quick": 16, "thorough": 300},
+             examples={"quick": 16, "thorough": 150},
              shrink_s={"quick": 60, "thorough": 600}),
     ]
